@@ -249,29 +249,38 @@ Section Dict.
     destruct (date_eqb (c_eval c) DATE_MAX); [discriminate|reflexivity].
   Qed.
 
-  Lemma mk_cell_ok c : cellb c = true ->
-    mk_cell (c_kind c) (c_pstart c) (c_pend c) (c_eval c) (c_values c) (c_prev c) (Some (c_meta c))
-    = ROk c.
+  Lemma set_meta_id c : set_meta c (c_meta c) = c.
+  Proof. destruct c; reflexivity. Qed.
+
+  (* the reader builds the cell with whatever metadata record it read last *)
+  Lemma mk_cell_ok' c cur : cellb c = true ->
+    mk_cell (c_kind c) (c_pstart c) (c_pend c) (c_eval c) (c_values c) (c_prev c) cur
+    = ROk (set_meta c (cur_meta cur)).
   Proof.
     intros H. destruct (cellb_facts _ H) as (_ & _ & _ & H4 & H5 & H6 & H7 & H8).
     unfold mk_cell. rewrite H7, H4, H5, H6. cbn [negb].
     unfold prevb in H8. destruct c as [k ps pe ev vals pv m]; cbn [c_kind c_prev c_eval] in *.
     destruct pv as [p|].
     - destruct k; try discriminate. apply andb_true_iff in H8 as [_ H8].
-      now rewrite (date_ltb_not_leb _ _ H8).
-    - reflexivity.
+      rewrite (date_ltb_not_leb _ _ H8). destruct cur; reflexivity.
+    - destruct cur; reflexivity.
   Qed.
+
+  Lemma mk_cell_ok c : cellb c = true ->
+    mk_cell (c_kind c) (c_pstart c) (c_pend c) (c_eval c) (c_values c) (c_prev c) (Some (c_meta c))
+    = ROk c.
+  Proof. intros H. rewrite (mk_cell_ok' c (Some (c_meta c)) H). cbn [cur_meta]. now rewrite set_meta_id. Qed.
 
   Lemma cell_tag_cases k :
     (k = KCell /\ cell_tag k = R_CELL) \/ (k = KCum /\ cell_tag k = R_CUM) \/ (k = KInc /\ cell_tag k = R_INC).
   Proof. destruct k; auto. Qed.
 
-  Lemma cell_rt c : cell_ok c ->
-    RtAt (dec_cell rpool (cell_tag (c_kind c)) (Some (c_meta c))) (enc_cell pool c) c.
+  Lemma cell_rt' c cur : cell_ok c ->
+    RtAt (dec_cell rpool (cell_tag (c_kind c)) cur) (enc_cell pool c) (set_meta c (cur_meta cur)).
   Proof.
     intros (Hc & [Hv Hv'] & _).
     destruct (cellb_facts _ Hc) as (D1 & D2 & D3 & _ & _ & _ & _ & Hp).
-    pose proof (mk_cell_ok _ Hc) as Hmk.
+    pose proof (mk_cell_ok' _ cur Hc) as Hmk.
     unfold enc_cell, dec_cell.
     apply bind_rt with (a := c_pstart c); [now apply date_rt|].
     apply bind_rt with (a := c_pend c); [now apply date_rt|].
@@ -287,6 +296,13 @@ Section Dict.
       apply andb_true_iff in Hp as [Hp1 Hp2].
       apply bind_rt with (a := c_values c); [now apply dict_top_rt|].
       eapply pmapr_rt; [now apply date_rt | exact Hmk].
+  Qed.
+
+  Lemma cell_rt c : cell_ok c ->
+    RtAt (dec_cell rpool (cell_tag (c_kind c)) (Some (c_meta c))) (enc_cell pool c) c.
+  Proof.
+    intros H. pose proof (cell_rt' c (Some (c_meta c)) H) as R. cbn [cur_meta] in R.
+    now rewrite set_meta_id in R.
   Qed.
 
   Lemma cell_strict c cur : cell_ok c ->
@@ -332,25 +348,31 @@ Section Dict.
     cbn [dec_body]. destruct (cell_tag_dispatch k) as [-> ->]. reflexivity.
   Qed.
 
-  Lemma enc_body_length prev t : (2 * length t <= length (enc_body pool prev t))%nat.
+  Section WithMeq.
+  Variable meq : meta -> meta -> bool.
+
+  Lemma enc_body_with_length prev t : (2 * length t <= length (enc_body_with meq pool prev t))%nat.
   Proof.
-    revert prev; induction t as [|c cs IH]; intros prev; cbn [enc_body length]; [lia|].
+    revert prev; induction t as [|c cs IH]; intros prev; cbn [enc_body_with length]; [lia|].
     rewrite !app_length. cbn [length]. specialize (IH (Some (c_meta c))).
     pose proof (enc_cell_nonempty c). destruct (enc_cell pool c); [congruence|]. cbn [length]. lia.
   Qed.
 
-  Lemma body_rt flag t : forall fuel prev acc,
-    Forall cell_ok t -> (length (enc_body pool prev t) < fuel)%nat ->
-    dec_body flag rpool fuel prev acc (enc_body pool prev t) = at_end flag (rev acc ++ t).
+  (* writer state [prev] (the previous cell's metadata) and reader state [cur] (the last metadata
+     record read) evolve independently; what comes back is [rep_with meq prev cur t] *)
+  Lemma body_rt_with flag t : forall fuel prev cur acc,
+    Forall cell_ok t -> (length (enc_body_with meq pool prev t) < fuel)%nat ->
+    dec_body flag rpool fuel cur acc (enc_body_with meq pool prev t)
+    = at_end flag (rev acc ++ rep_with meq prev cur t).
   Proof.
-    induction t as [|c cs IH]; intros fuel prev acc Hok Hf.
-    - destruct fuel; [simpl in Hf; lia|]. cbn [enc_body dec_body]. now rewrite app_nil_r.
+    induction t as [|c cs IH]; intros fuel prev cur acc Hok Hf.
+    - destruct fuel; [simpl in Hf; lia|]. cbn [enc_body_with rep_with dec_body]. now rewrite app_nil_r.
     - inversion Hok as [|? ? Hc Hcs]; subst.
-      cbn [enc_body] in *. rewrite !app_length in Hf. cbn [length] in Hf.
-      destruct (ometa_eqb prev (c_meta c)) eqn:E.
-      + apply ometa_eqb_eq in E. subst prev. cbn [app].
+      cbn [enc_body_with rep_with] in *. rewrite !app_length in Hf. cbn [length] in Hf.
+      destruct (same_meta meq prev (c_meta c)) eqn:E.
+      + cbn [app].
         destruct fuel; [lia|]. rewrite body_step_cell.
-        unfold bind. rewrite (cell_rt _ Hc).
+        unfold bind. rewrite (cell_rt' _ cur Hc).
         rewrite IH; auto; [|cbn [length] in Hf; lia].
         cbn [rev]. now rewrite <- app_assoc.
       + cbn [app]. destruct fuel; [cbn [length] in Hf; lia|]. rewrite body_step_meta.
@@ -366,43 +388,47 @@ Section Dict.
   Definition PrefixOutcome (flag : bool) (acc t : list cell) (r : res (list cell)) : Prop :=
     IsErr r \/ exists j, r = at_end flag (rev acc ++ firstn j t).
 
-  Lemma body_trunc flag t : forall fuel prev acc n,
-    Forall cell_ok t -> (n < length (enc_body pool prev t))%nat -> (n < fuel)%nat ->
-    PrefixOutcome flag acc t (dec_body flag rpool fuel prev acc (firstn n (enc_body pool prev t))).
+  Lemma body_trunc_with flag t : forall fuel prev cur acc n,
+    Forall cell_ok t -> (n < length (enc_body_with meq pool prev t))%nat -> (n < fuel)%nat ->
+    PrefixOutcome flag acc (rep_with meq prev cur t)
+      (dec_body flag rpool fuel cur acc (firstn n (enc_body_with meq pool prev t))).
   Proof.
-    induction t as [|c cs IH]; intros fuel prev acc n Hok Hn Hf.
-    - cbn [enc_body length] in Hn. lia.
+    induction t as [|c cs IH]; intros fuel prev cur acc n Hok Hn Hf.
+    - cbn [enc_body_with length] in Hn. lia.
     - inversion Hok as [|? ? Hc Hcs]; subst.
       destruct fuel; [lia|].
       destruct n as [|n].
       { right. exists O. cbn [firstn dec_body]. now rewrite app_nil_r. }
-      cbn [enc_body] in *.
-      (* the cell record, then the rest: common to both branches *)
-      assert (Hcellpart : forall fuel' acc' m,
-                 (m < S (length (enc_cell pool c)) + length (enc_body pool (Some (c_meta c)) cs))%nat ->
-                 (m < fuel')%nat -> acc' = acc ->
-                 PrefixOutcome flag acc (c :: cs)
-                   (dec_body flag rpool fuel' (Some (c_meta c)) acc'
+      cbn [enc_body_with rep_with] in *.
+      (* the cell record, then the rest: common to both branches; [cur'] = reader state when the
+         cell record starts, [c'] = the cell it yields *)
+      assert (Hcellpart : forall fuel' cur' m,
+                 (m < S (length (enc_cell pool c)) + length (enc_body_with meq pool (Some (c_meta c)) cs))%nat ->
+                 (m < fuel')%nat ->
+                 PrefixOutcome flag acc
+                   (set_meta c (cur_meta cur') :: rep_with meq (Some (c_meta c)) cur' cs)
+                   (dec_body flag rpool fuel' cur' acc
                       (firstn m ((cell_tag (c_kind c) :: enc_cell pool c)
-                                   ++ enc_body pool (Some (c_meta c)) cs)))).
-      { intros fuel' acc' m Hm Hf' ->.
+                                   ++ enc_body_with meq pool (Some (c_meta c)) cs)))).
+      { intros fuel' cur' m Hm Hf'.
         destruct fuel'; [lia|].
         destruct m as [|m].
         { right. exists O. cbn [firstn dec_body]. now rewrite app_nil_r. }
         cbn [app firstn]. rewrite body_step_cell.
         destruct (Nat.lt_ge_cases m (length (enc_cell pool c))) as [Hlt|Hge].
         - left. rewrite firstn_app_lt by assumption. unfold bind.
-          destruct (cell_strict c (Some (c_meta c)) Hc m Hlt) as [e ->]. apply IsErr_Err.
-        - rewrite firstn_app_ge by assumption. unfold bind. rewrite (cell_rt _ Hc).
+          destruct (cell_strict c cur' Hc m Hlt) as [e ->]. apply IsErr_Err.
+        - rewrite firstn_app_ge by assumption. unfold bind. rewrite (cell_rt' _ cur' Hc).
           destruct (Nat.eq_dec (m - length (enc_cell pool c)) O) as [Hz|Hnz].
           + rewrite Hz. cbn [firstn]. right. exists 1%nat.
             destruct fuel'; [lia|]. cbn [dec_body rev firstn]. reflexivity.
-          + destruct (IH fuel' (Some (c_meta c)) (c :: acc) (m - length (enc_cell pool c))%nat Hcs)
+          + destruct (IH fuel' (Some (c_meta c)) cur' (set_meta c (cur_meta cur') :: acc)
+                         (m - length (enc_cell pool c))%nat Hcs)
               as [He|[j Hj]]; [lia | lia | left; exact He |].
             right. exists (S j). rewrite Hj. cbn [rev firstn]. now rewrite <- app_assoc. }
-      destruct (ometa_eqb prev (c_meta c)) eqn:E.
-      + apply ometa_eqb_eq in E. subst prev. cbn [app] in *.
-        apply (Hcellpart (S fuel) acc (S n)); auto.
+      destruct (same_meta meq prev (c_meta c)) eqn:E.
+      + cbn [app] in *.
+        apply (Hcellpart (S fuel) cur (S n)); auto.
         cbn [length] in Hn; rewrite ?app_length in Hn; cbn [length] in Hn; rewrite ?app_length in Hn; cbn [length] in Hn. lia.
       + cbn [app] in Hn |- *. cbn [firstn]. rewrite body_step_meta.
         cbn [length] in Hn; rewrite ?app_length in Hn; cbn [length] in Hn; rewrite ?app_length in Hn; cbn [length] in Hn.
@@ -411,9 +437,47 @@ Section Dict.
           destruct (meta_strict _ (proj2 (proj2 Hc)) n Hlt) as [e ->]. apply IsErr_Err.
         * rewrite firstn_app_ge by assumption. unfold bind.
           rewrite (meta_rt _ (proj2 (proj2 Hc))).
-          apply Hcellpart; auto; [cbn [length] in Hn; lia|].
+          rewrite <- (set_meta_id c) at 1.
+          apply (Hcellpart fuel (Some (c_meta c))); [cbn [length] in Hn; lia|].
           pose proof (enc_meta_nonempty (c_meta c)).
           destruct (enc_meta pool (c_meta c)); [congruence|]. cbn [length] in *. lia.
+  Qed.
+  End WithMeq.
+
+  (* the structural writer is the instance meq := meta_eqb; nothing is collapsed *)
+  Lemma enc_body_is_with prev t : enc_body pool prev t = enc_body_with meta_eqb pool prev t.
+  Proof.
+    revert prev; induction t as [|c cs IH]; intros prev; cbn [enc_body enc_body_with]; [reflexivity|].
+    rewrite IH. destruct prev; reflexivity.
+  Qed.
+
+  Lemma rep_structural prev t : rep_with meta_eqb prev prev t = t.
+  Proof.
+    revert prev; induction t as [|c cs IH]; intros prev; cbn [rep_with]; [reflexivity|].
+    destruct (same_meta meta_eqb prev (c_meta c)) eqn:E.
+    - destruct prev as [p|]; cbn [same_meta] in E; [|discriminate].
+      apply meta_eqb_eq in E. subst p. cbn [cur_meta]. now rewrite set_meta_id, IH.
+    - now rewrite IH.
+  Qed.
+
+  Lemma enc_body_length prev t : (2 * length t <= length (enc_body pool prev t))%nat.
+  Proof. rewrite enc_body_is_with. apply enc_body_with_length. Qed.
+
+  Lemma body_rt flag t : forall fuel prev acc,
+    Forall cell_ok t -> (length (enc_body pool prev t) < fuel)%nat ->
+    dec_body flag rpool fuel prev acc (enc_body pool prev t) = at_end flag (rev acc ++ t).
+  Proof.
+    intros fuel prev acc Hok Hf. rewrite enc_body_is_with in *.
+    rewrite (body_rt_with meta_eqb flag t fuel prev prev acc Hok Hf). now rewrite rep_structural.
+  Qed.
+
+  Lemma body_trunc flag t : forall fuel prev acc n,
+    Forall cell_ok t -> (n < length (enc_body pool prev t))%nat -> (n < fuel)%nat ->
+    PrefixOutcome flag acc t (dec_body flag rpool fuel prev acc (firstn n (enc_body pool prev t))).
+  Proof.
+    intros fuel prev acc n Hok Hn Hf. rewrite enc_body_is_with in *.
+    pose proof (body_trunc_with meta_eqb flag t fuel prev prev acc n Hok Hn Hf) as H.
+    now rewrite rep_structural in H.
   Qed.
 
   (* ---------------------------------------------------------------- the string pool *)
